@@ -21,6 +21,7 @@
 import MediaSan.Lemmas.Mp4Displace
 import MediaSan.Lemmas.RelocateFinal
 import MediaSan.Lemmas.SpecHolds
+import MediaSan.Generated.Mp4Consts
 namespace MediaSan.Props.C01
 open MediaSan MediaSan.Mp4 MediaSan.Generated
 
@@ -228,5 +229,12 @@ example : (match Mp4.sanitize (Stream.ofBytes oneEntryRemux) .seekable {} with
     some (60, [0, 0, 0, 88]) := by decide +kernel
 
 end Relocated
+
+/-- the padding constants the model uses are the code's (extracted from `PAD_HEADER_SIZE` / `MAX_PAD_SIZE` in
+    mp4san/src/lib.rs on every run).  No feasible input separates a wrong upper bound - the padding box would be
+    4 GiB long - so this obligation is the tie for it. -/
+theorem C01_pad_constants :
+    MediaSan.Generated.mp4PadHeaderSize = MediaSan.Mp4.padHeaderSize ∧
+    MediaSan.Generated.mp4MaxPadSize = MediaSan.Mp4.maxPadSize := by decide
 
 end MediaSan.Props.C01
